@@ -61,4 +61,9 @@ impl Datamodel for RFsmExpressionDatamodel {
         unimplemented!()
     }
 
+    #[verifier::external_body]
+    fn verif_execute_for_each(&mut self, fsm: &Fsm, content_id: ExecutableContentId, array_expression: &Data, item_name: &str, index: &str) -> (r: bool) {
+        unimplemented!()
+    }
+
     // executeContent: the REAL body, extracted from src/datamodel/expression_engine.rs (see below)
